@@ -576,6 +576,53 @@ pub fn check_strict(
   for (k, v) in &st.events {
     counters.add(&format!("event:{}", k), *v);
   }
+  if mode == StrictMode::C10 && scn.threads.len() == 1 {
+    // which cache states did this plain history walk through?
+    let mut filled_by: BTreeMap<bool, &str> = BTreeMap::new(); // columns -> first filler
+    let mut aborted_first: BTreeMap<bool, bool> = BTreeMap::new();
+    for (i, op) in scn.threads[0].iter().enumerate() {
+      let inner = match &op.kind {
+        OpKind::CloneThen { then } => (**then).clone(),
+        k => k.clone(),
+      };
+      let was_aborted = matches!(outcome.answers[0][i], Answer::Aborted { .. });
+      match inner {
+        OpKind::Map { columns } => {
+          match filled_by.get(&columns) {
+            None => {
+              filled_by.insert(columns, "map");
+              if filled_by.contains_key(&!columns) {
+                counters.inc("probe:cold_call_after_other_column_setting_was_cached");
+              }
+            }
+            Some(&"stream") => counters.inc("probe:map_served_from_stream_filled_cache"),
+            Some(_) => counters.inc("probe:map_served_from_map_filled_cache"),
+          }
+        }
+        OpKind::Stream { columns, .. } => {
+          match filled_by.get(&columns) {
+            None => {
+              if was_aborted {
+                aborted_first.insert(columns, true);
+                counters.inc("probe:first_stream_cancelled_on_cold_cache");
+              } else {
+                filled_by.insert(columns, "stream");
+                if aborted_first.get(&columns) == Some(&true) {
+                  counters.inc("probe:fill_after_cancelled_fill");
+                }
+                if filled_by.contains_key(&!columns) {
+                  counters.inc("probe:cold_call_after_other_column_setting_was_cached");
+                }
+              }
+            }
+            Some(&"map") => counters.inc("probe:stream_replayed_from_map_filled_cache"),
+            Some(_) => counters.inc("probe:stream_replayed_from_stream_filled_cache"),
+          }
+        }
+        _ => {}
+      }
+    }
+  }
   if scn.threads.len() == 1 {
     counters.inc("population:single_thread_histories");
   } else {
